@@ -431,6 +431,36 @@ fn main() {
         }
         t
     });
+    // ---- S10: views of ONE object: r = x.to_ref(), -r, r.abs(), and the same through to_owned(): comparisons between
+    // views that share their digits (pointer-equality shortcuts must still look at the sign and the scale)
+    let alias: Vec<Dec> = vec![Dec::new(1, 0), Dec::new(-1, 0), Dec::new(12345, 3), Dec::new(-725, 2), Dec::new(0, 4), Dec { n: pow10(25) + 1, s: 10 }, Dec { n: -(BigInt::one() << 70usize), s: -3 }, Dec::new(5, -2)];
+    run.bound("S10_aliased_operands", alias.len());
+    run.seq("S10 views of one object", || {
+        let mut t = Tally::default();
+        for x in alias.iter() {
+            let xb = bd(x);
+            let r = xb.to_ref();
+            let neg = x.neg();
+            let abs = Dec { n: if x.n.sign() == num_bigint::Sign::Minus { -x.n.clone() } else { x.n.clone() }, s: x.s };
+            t.states += 1;
+            let views: Vec<(&str, bigdecimal::BigDecimalRef, &Dec)> = vec![("r", r, x), ("-r", -r, &neg), ("r.abs()", r.abs(), &abs), ("-(-r)", -(-r), x)];
+            for (na, va, da) in views.iter() {
+                for (nb, vb, db) in views.iter() {
+                    t.transitions += 4;
+                    t.nontrivial += 1;
+                    let want = cmp_val(&da.n, da.s, &db.n, db.s);
+                    let got = guard(|| (va.cmp(vb), va == vb, va.partial_cmp(vb), va < vb));
+                    let exp = (want, want == Ordering::Equal, Some(want), want == Ordering::Less);
+                    match got {
+                        Ok(o) if o == exp => {}
+                        Ok(o) => run.report(Violation::new("views of one object", "wrong_value", json!({"a": da.show(), "b": db.show(), "views": format!("{} vs {} of {}", na, nb, x.show())}), format!("{:?}", exp), format!("{:?}", o))),
+                        Err(e) => run.report(Violation::new("views of one object", "panic", json!({"a": da.show(), "b": db.show(), "views": format!("{} vs {} of {}", na, nb, x.show())}), "no panic", e)),
+                    }
+                }
+            }
+        }
+        t
+    });
     // ---- S7: tightness of the bit-length pre-test ----------------------------------------------------
     // the scaled comparison first compares bits(a) with bits(b) + floor(g*log2 10); that estimate is tight
     // exactly when b is a power of two and a = b*10^g: every gap up to a bound, then the gaps up to 100000
